@@ -232,6 +232,8 @@ dispatch_data_create_f(const void *buffer, size_t size, dispatch_queue_t queue,
 			destructor != DISPATCH_DATA_DESTRUCTOR_NONE &&
 #if HAVE_MACH
 			destructor != DISPATCH_DATA_DESTRUCTOR_VM_DEALLOCATE &&
+#elif !defined(_WIN32)
+			destructor != DISPATCH_DATA_DESTRUCTOR_MUNMAP &&
 #endif
 			destructor != DISPATCH_DATA_DESTRUCTOR_INLINE) {
 		destructor = ^{ destructor_function((void*)buffer); };
